@@ -65,17 +65,19 @@ Dec(n) == IF n < 10 THEN <<ZERO + n>> ELSE Dec(n \div 10) \o <<ZERO + (n % 10)>>
 RECURSIVE Flat(_)
 Flat(ss) == IF ss = <<>> THEN <<>> ELSE Head(ss) \o Flat(Tail(ss))
 
-\* RespValue::encode.  Simple strings and errors are written as raw lines: the encoder does not
-\* (and cannot) repair text containing CR / LF - whoever builds the value must keep it clean.
-RECURSIVE Encode(_)
-Encode(v) ==
-    CASE v.t = "simple"   -> <<PLUS>> \o v.s \o CRLF
-      [] v.t = "error"    -> <<MINUS>> \o v.s \o CRLF
+\* RespValue::encode.  A simple string / error is one line: CR and LF inside its text are written
+\* as spaces (clean = TRUE).  clean = FALSE is the pinned tree's encoder, which wrote the text raw.
+Clean(s) == [i \in 1..Len(s) |-> IF s[i] \in {CR, LF} THEN SP ELSE s[i]]
+RECURSIVE EncodeWith(_, _)
+EncodeWith(v, clean) ==
+    CASE v.t = "simple"   -> <<PLUS>> \o (IF clean THEN Clean(v.s) ELSE v.s) \o CRLF
+      [] v.t = "error"    -> <<MINUS>> \o (IF clean THEN Clean(v.s) ELSE v.s) \o CRLF
       [] v.t = "int"      -> <<COLON>> \o v.s \o CRLF
       [] v.t = "nullbulk" -> <<DOLLAR, MINUS, 49>> \o CRLF
       [] v.t = "bulk"     -> <<DOLLAR>> \o Dec(Len(v.s)) \o CRLF \o v.s \o CRLF
-      [] v.t = "array"    -> <<STAR>> \o Dec(Len(v.a)) \o CRLF \o Flat([i \in 1..Len(v.a) |-> Encode(v.a[i])])
+      [] v.t = "array"    -> <<STAR>> \o Dec(Len(v.a)) \o CRLF \o Flat([i \in 1..Len(v.a) |-> EncodeWith(v.a[i], clean)])
       [] v.t = "null"     -> <<USCORE>> \o CRLF
+Encode(v) == EncodeWith(v, TRUE)
 
 \* ---------------------------------------------------------------- grammar
 Need == [k |-> "need"]
@@ -117,15 +119,17 @@ HeaderNeed(ln, max, nullOk) ==
     IF ln.cr THEN IsLen(ln.body, max) \/ (nullOk /\ ln.body = M1)
     ELSE IsLenPrefix(ln.body, max) \/ (nullOk /\ ln.body \in {<<MINUS>>, M1})
 
-RECURSIVE Frame(_, _, _), Elems(_, _, _, _, _)
-\* the typed frame starting at b[i], inside d enclosing arrays
-Frame(b, i, d) ==
+RECURSIVE Frame(_, _, _, _), Elems(_, _, _, _, _, _)
+\* the typed frame starting at b[i], inside d enclosing arrays.  lax = FALSE (what a server must
+\* decode): the text of a simple string / error is ASCII (the implementation keeps it in a UTF-8
+\* String; other bytes are left open).  lax = TRUE (what a client may be sent): any bytes but CR / LF.
+Frame(b, i, d, lax) ==
     IF i > Len(b) THEN Need ELSE
     LET c == b[i] IN
     CASE c \in {PLUS, MINUS} ->
            LET ln == Line(b, i + 1) IN
            IF ln.k = "open" THEN Opn
-           ELSE IF ~IsAscii(ln.body) THEN Opn
+           ELSE IF ~lax /\ ~IsAscii(ln.body) THEN Opn
            ELSE IF ln.k = "need" THEN Need
            ELSE Fr(IF c = PLUS THEN Simple(ln.body) ELSE Error(ln.body), ln.j)
       [] c = COLON ->
@@ -152,7 +156,7 @@ Frame(b, i, d) ==
            IF ln.k = "open" THEN Opn
            ELSE IF ln.k = "need" THEN (IF HeaderNeed(ln, MaxArray, FALSE) THEN Need ELSE Opn)
            ELSE IF ~IsLen(ln.body, MaxArray) THEN Opn
-           ELSE Elems(b, ln.j, ToNat(ln.body), d + 1, <<>>)
+           ELSE Elems(b, ln.j, ToNat(ln.body), d + 1, <<>>, lax)
       [] c = USCORE ->
            IF i + 1 > Len(b) THEN Need
            ELSE IF b[i + 1] # CR THEN Opn
@@ -161,12 +165,12 @@ Frame(b, i, d) ==
            ELSE Fr(Null, i + 3)
       [] OTHER -> Opn
 
-Elems(b, i, n, d, acc) ==
+Elems(b, i, n, d, acc, lax) ==
     IF n = 0 THEN Fr(Arr(acc), i)
     ELSE IF i > Len(b) THEN Need
     ELSE IF b[i] \notin TypeBytes THEN Opn
-    ELSE LET r == Frame(b, i, d) IN
-         IF r.k # "frame" THEN r ELSE Elems(b, r.j, n - 1, d, Append(acc, r.v))
+    ELSE LET r == Frame(b, i, d, lax) IN
+         IF r.k # "frame" THEN r ELSE Elems(b, r.j, n - 1, d, Append(acc, r.v), lax)
 
 RECURSIVE Tok(_, _, _, _)
 Tok(s, i, cur, acc) ==
@@ -187,11 +191,11 @@ Inline(b) ==
 
 Top(b) ==
     IF b = <<>> THEN Need
-    ELSE IF b[1] \in TypeBytes THEN Frame(b, 1, 0)
+    ELSE IF b[1] \in TypeBytes THEN Frame(b, 1, 0, FALSE)
     ELSE Inline(b)
 
 \* what a client may receive: typed frames only
-TopTyped(b) == IF b = <<>> THEN Need ELSE IF b[1] \in TypeBytes THEN Frame(b, 1, 0) ELSE Opn
+TopTyped(b) == IF b = <<>> THEN Need ELSE IF b[1] \in TypeBytes THEN Frame(b, 1, 0, TRUE) ELSE Opn
 
 RECURSIVE ParseAllFrom(_, _, _)
 ParseAllFrom(b, acc, typed) ==
@@ -224,17 +228,15 @@ ReplyValOK(f, r) ==
 ReplyOK(f, rb) == StrictOne(rb) /\ ReplyValOK(f, TopTyped(rb).v)
 
 \* ---------------------------------------------------------------- a model of the command layer
-\* (design checks only; trace validation never predicts reply texts).  Error replies quote client
-\* text; Clean is what makes them one line.  With legacy = TRUE the text is quoted raw.
-Clean(s) == [i \in 1..Len(s) |-> IF s[i] \in {CR, LF} THEN SP ELSE s[i]]
+\* (design checks only; trace validation never predicts reply texts).  Error replies quote client text.
 ERRb == <<69, 82, 82, 32>>
-ModelReply(f, legacy) ==
+ModelReply(f) ==
     IF f.t # "array" THEN Error(ERRb \o <<110, 111, 116, 32, 97, 114, 114, 97, 121>>)      \* "ERR not array"
     ELSE IF f.a = <<>> THEN Error(ERRb \o <<101, 109, 112, 116, 121>>)                      \* "ERR empty"
     ELSE IF f.a[1].t # "bulk" THEN Error(ERRb \o <<110, 117, 108, 108>>)                    \* "ERR null"
     ELSE IF IsCmd(f, PINGb) THEN (IF Len(f.a) = 1 THEN Simple(PONGb) ELSE f.a[2])
     ELSE IF IsCmd(f, ECHOb) /\ Len(f.a) >= 2 THEN f.a[2]
-    ELSE Error(ERRb \o (IF legacy THEN Upper(f.a[1].s) ELSE Clean(Upper(f.a[1].s))))        \* "ERR <name>"
+    ELSE Error(ERRb \o Upper(f.a[1].s))                                                    \* "ERR <NAME>"
 
 \* ---------------------------------------------------------------- the connection
 VARIABLES wire,      \* bytes the client has not yet got through to the server
@@ -343,14 +345,15 @@ LegacyElems(b, n) ==
     ELSE LET r == Top(b) IN
          IF r.k = "frame" THEN LegacyElems(Drop(b, r.j - 1), n - 1) ELSE LegacyRest(b)
 
-LegacyDecode(rb) ==
+\* eat: the decoder consumes as described above; rb is written without being looked at
+LegacyDecode(rb, eat) ==
     /\ st = "decoding"
     /\ LET r == Top(buf) IN
        \/ /\ r.k = "frame"
           /\ decoded' = Append(decoded, r.v) /\ out' = Append(out, rb)
           /\ buf' = Drop(buf, r.j - 1) /\ st' = "decoding"
        \/ /\ r.k = "need"
-          /\ buf' = LegacyRest(buf)
+          /\ buf' = IF eat THEN LegacyRest(buf) ELSE buf
           /\ st' = "reading" /\ UNCHANGED <<decoded, out>>
        \/ /\ r.k = "open"
           /\ st' = "closed" /\ UNCHANGED <<buf, decoded, out>>
